@@ -7,6 +7,7 @@ import (
 	"strings"
 	"testing"
 
+	"github.com/bytemare/secp256k1"
 	"github.com/bytemare/secp256k1/verifharness/gen"
 	"github.com/bytemare/secp256k1/verifharness/pt"
 	"github.com/bytemare/secp256k1/verifharness/ref"
@@ -23,6 +24,7 @@ type caseC03 struct {
 	Prior   pt.Spec `json:"prior"`
 	Kind    string  `json:"kind"` // generator class, informational
 	Nil     bool    `json:"nilin,omitempty"`
+	ZeroRcv bool    `json:"zero_receiver,omitempty"` // the receiver is a zero-value struct (new(Element)) instead of Prior
 }
 
 var (
@@ -227,9 +229,19 @@ var c03 = gen.Register(&gen.Check[caseC03]{
 		c.Data = hex.EncodeToString(data)
 		if c.Decoder == "hex" {
 			txt := c.Data
-			switch rapid.IntRange(0, 5).Draw(t, "hexKind") {
+			switch gen.Pick(t, "hexKind", 8) {
 			case 0:
 				txt = strings.ToUpper(txt)
+			case 3: // two hex digits replaced by one 2-byte rune whose low code-point byte is a hex digit (same byte length)
+				if len(txt) >= 2 {
+					i := 2 * rapid.IntRange(0, len(txt)/2-1).Draw(t, "upos")
+					txt = txt[:i] + rapid.SampledFrom([]string{"\u0130", "\u0141", "\u0166", "\u0361"}).Draw(t, "urune") + txt[i+2:]
+				}
+			case 4:
+				if len(txt) >= 4 {
+					i := rapid.IntRange(0, len(txt)-3).Draw(t, "upos3")
+					txt = txt[:i] + rapid.SampledFrom([]string{"\u3066", "\u3041", "\uff10"}).Draw(t, "urune3") + txt[i+3:]
+				}
 			case 1:
 				txt += "0"
 			case 2:
@@ -243,6 +255,7 @@ var c03 = gen.Register(&gen.Check[caseC03]{
 		if len(data) == 0 {
 			c.Nil = rapid.Bool().Draw(t, "nil")
 		}
+		c.ZeroRcv = gen.Chance(t, "zeroRcv", 1, 6)
 		return c
 	},
 	Fixed: func() []caseC03 {
@@ -259,6 +272,13 @@ var c03 = gen.Register(&gen.Check[caseC03]{
 			c := caseC03{Data: hex.EncodeToString(d), Decoder: dec, Prior: prior, Kind: kind}
 			if dec == "hex" {
 				c.Text = c.Data
+			}
+			out = append(out, c)
+		}
+		for _, dec := range []string{"decode", "hex", "unmarshal"} {
+			c := caseC03{Data: "00", Decoder: dec, Prior: prior, Kind: "identity", ZeroRcv: true}
+			if dec == "hex" {
+				c.Text = "00"
 			}
 			out = append(out, c)
 		}
@@ -285,7 +305,7 @@ var c03 = gen.Register(&gen.Check[caseC03]{
 		return out
 	},
 	Required: []string{"accepted", "reject:length", "reject:prefix", "reject:range-x", "reject:range-y", "reject:not-on-curve", "reject:hex",
-		"kind:alias-x", "kind:alias-y", "dec:coordinates", "dec:compressed", "dec:uncompressed", "prior:z!=1-or-identity"},
+		"kind:alias-x", "kind:alias-y", "dec:coordinates", "dec:compressed", "dec:uncompressed", "prior:z!=1-or-identity", "zero-value-receiver"},
 	Run: func(c caseC03, o *gen.Obs) error {
 		// every case is evaluated twice in a row: the verdict on an input must not depend on the input having been
 		// presented just before (decoders that remember their last input)
@@ -310,6 +330,10 @@ func c03Once(c caseC03, o *gen.Obs) error {
 	data := gen.HexBytes(c.Data)
 	if c.Nil {
 		data = nil
+	}
+	if c.ZeroRcv {
+		prior = &pt.Built{E: new(secp256k1.Element)}
+		o.Class("zero-value-receiver")
 	}
 	enc0, unc0, id0 := snapshotElement(prior)
 	o.Class("kind:" + c.Kind)
@@ -390,6 +414,13 @@ func c03Once(c caseC03, o *gen.Obs) error {
 	}
 	if e.IsIdentity() != want.Inf {
 		return gen.Fail(site+"/is-identity", "IsIdentity = %v after decoding %x", e.IsIdentity(), data)
+	}
+	// the receiver now IS that point: it must also behave like it in the next operation
+	if got := e.Copy().Add(secp256k1.Base()).Encode(); !bytes.Equal(got, ref.Compress(ref.Add(want, ref.G()))) {
+		return gen.Fail(site+"/value-behaviour", "after decoding %x the receiver encodes correctly but receiver + G = %x, want %x", data, got, ref.Compress(ref.Add(want, ref.G())))
+	}
+	if got := secp256k1.Base().Equal(e); (got == 1) != want.Equal(ref.G()) {
+		return gen.Fail(site+"/value-behaviour", "after decoding %x, Equal(G, receiver) = %d", data, got)
 	}
 	return nil
 }
